@@ -1,0 +1,27 @@
+//! Child module of `leader_follower/follower.rs` (feature `verif`): the branch bodies of the
+//! follower loop, callable one at a time.
+
+use crate::{
+    Worterbuch,
+    error::WorterbuchAppResult,
+    leader_follower::{LeaderSyncMessage, StateSync},
+    server::common::WbFunction,
+};
+
+pub async fn initial_sync(
+    state_sync: StateSync,
+    worterbuch: &mut Worterbuch,
+) -> WorterbuchAppResult<()> {
+    super::initial_sync(state_sync, worterbuch).await
+}
+
+pub async fn process_leader_message(
+    msg: LeaderSyncMessage,
+    worterbuch: &mut Worterbuch,
+) -> WorterbuchAppResult<()> {
+    super::process_leader_message(msg, worterbuch).await
+}
+
+pub async fn process_api_call(worterbuch: &mut Worterbuch, function: WbFunction) {
+    super::process_api_call(worterbuch, function).await
+}
